@@ -216,11 +216,13 @@ protected:
     }
 
     void build_queue(awaiter *stop) {
-        assert("Can't build queue if there are items in it" && _queue == nullptr);
         //atomically swap top of _requests with doorman
         //we use acquire order - to see changes on _next
         COCLS_VERIF_POINT("m_bq");
         awaiter *req = _requests.exchange(doorman(), std::memory_order_acquire);
+        //_queue belongs to the owner: when called from subscribe() it may be read only after
+        //the exchange above acquired what the previous owner wrote
+        assert("Can't build queue if there are items in it" && _queue == nullptr);
         //if req is defined and until stop is reached
         while (req  && req != stop) {
             //pick top item, remove it and push it to _queue
